@@ -427,124 +427,6 @@ theorem printsAs_bracketed {name : Option Str} {f : F} {fs : List F} (hn : optOk
       .atom (openText name) :: .nl (i + 2) :: (items ++ [.atom [','], .nl i, .atom [']']]),
       i + [']'].length, by simp, by simp [renderPieces_append, renderPieces, hr], .brk (i + 2) i hn hi⟩
 
-/-- `chain_doc` of a field value or step -/
-theorem printsAs_chainDocOf {t : T} (h : PrintsAs (termDoc t) (LayP t)) :
-    PrintsAs (if isPrim t = true then chainDoc (termDoc t) else termDoc t) (LayP t) := by
-  split
-  · exact printsAs_chainDoc h
-  · exact h
-
-/-- what the tail lemma says: the parts of `chain_terms_doc` after the first term print the further
-    terms, each behind one space -/
-def TailPrintsAs (prev : Bool) (more : List T) : Prop :=
-  FramesPrintAs (chainParts prev (more.map isIdent) (termDocs more)) (TailP more)
-
-theorem tailPrintsAs_nil (prev : Bool) : TailPrintsAs prev [] := by
-  intro w col i m st
-  exact ⟨[], [], col, by simp [chainParts, termDocs, mkFrames], rfl, .nil⟩
-
-theorem tailPrintsAs_cons {prev : Bool} {u : T} {us : List T} (hp : isPrim u = true)
-    (hu : PrintsAs (termDoc u) (LayP u)) (ht : TailPrintsAs (isIdent u) us) :
-    TailPrintsAs prev (u :: us) := by
-  intro w col i m st
-  cases prev with
-  | false =>
-    simp only [List.map_cons, termDocs, chainParts, Bool.false_eq_true, if_false, List.cons_append,
-      List.nil_append, mkFrames, pl_text]
-    obtain ⟨ps', ps, col1, hq, hr, hl⟩ := hu w (col + [' '].length) i m
-      (mkFrames i m (chainParts (isIdent u) (us.map isIdent) (termDocs us)) ++ st)
-    obtain ⟨rs', rs, col2, hq2, hr2, hrest⟩ := ht w col1 i m st
-    rw [hq, hq2]
-    exact ⟨.atom [' '] :: (ps' ++ rs'), .sp :: (ps ++ rs), col2, by simp,
-      by simp [renderPieces_append, renderPieces, Piece.render, hr, hr2], .cons hp hl hrest⟩
-  | true =>
-    simp only [List.map_cons, termDocs, chainParts, if_true, List.cons_append, List.nil_append, mkFrames]
-    cases m with
-    | flat =>
-      rw [pl_line_flat, pl_ifBreak_flat, pl_nil]
-      obtain ⟨ps', ps, col1, hq, hr, hl⟩ := hu w (col + 1) i .flat
-        (mkFrames i .flat (chainParts (isIdent u) (us.map isIdent) (termDocs us)) ++ st)
-      obtain ⟨rs', rs, col2, hq2, hr2, hrest⟩ := ht w col1 i .flat st
-      rw [hq, hq2]
-      exact ⟨.sp :: (ps' ++ rs'), .sp :: (ps ++ rs), col2, by simp,
-        by simp [renderPieces_append, renderPieces, hr, hr2], .cons hp hl hrest⟩
-    | brk =>
-      rw [pl_line_brk, pl_ifBreak_brk, pl_text]
-      obtain ⟨ps', ps, col1, hq, hr, hl⟩ := hu w (i + ['~', '>', ' '].length) i .brk
-        (mkFrames i .brk (chainParts (isIdent u) (us.map isIdent) (termDocs us)) ++ st)
-      obtain ⟨rs', rs, col2, hq2, hr2, hrest⟩ := ht w col1 i .brk st
-      rw [hq, hq2]
-      exact ⟨.nl i :: .atom ['~', '>', ' '] :: (ps' ++ rs'), .nl i :: .atom ['~', '>'] :: .sp :: (ps ++ rs), col2,
-        by simp, by simp [renderPieces_append, renderPieces, Piece.render, hr, hr2], .pipe i hp hl hrest⟩
-
-/-- the last term of a non-empty list, as `getLastD` with any default -/
-theorem getLastD_cons_cons (a b : T) (l : List T) (d : T) : (a :: b :: l).getLastD d = (b :: l).getLastD a := by
-  simp [List.getLastD]
-
-mutual
-/-- Whatever the width, the column, the indentation, the mode of the enclosing group and the rest of
-    the stack: the engine prints `termDoc t` as one of the layouts of `t`, then goes on with the rest. -/
-theorem printLoop_term : (t : T) → T.WF t → PrintsAs (termDoc t) (LayP t)
-  | .leaf n, hwf => by
-    intro w col i m st
-    simp only [termDoc, pl_text]
-    exact ⟨[.atom n], [.atom n], col + n.length, by simp, rfl, .leaf hwf⟩
-  | .int i, _ => by
-    intro w col i' m st
-    simp only [termDoc, pl_text]
-    exact ⟨[.atom (intText i)], [.atom (intText i)], col + (intText i).length, by simp, rfl, .lit (.int i)⟩
-  | .bin bs, hwf => by
-    intro w col i m st
-    simp only [termDoc, pl_text]
-    exact ⟨[.atom (binText bs)], [.atom (binText bs)], col + (binText bs).length, by simp, rfl, .lit (.bin hwf)⟩
-  | .str v, _ => by
-    intro w col i m st
-    simp only [termDoc, pl_text]
-    exact ⟨[.atom (strText v)], [.atom (strText v)], col + (strText v).length, by simp, rfl, .lit (.str v)⟩
-  | .tup name [], hwf => by
-    intro w col i m st
-    simp only [termDoc, List.isEmpty_nil, if_true, pl_text]
-    exact ⟨[.atom (emptyText name)], [.atom (emptyText name)], col + (emptyText name).length, by simp, rfl,
-      .empty hwf.1⟩
-  | .tup name (f :: fs), hwf => by
-    have h := printLoop_items (f :: fs) (by simp) hwf.2
-    have := printsAs_bracketed hwf.1 h
-    simpa [termDoc] using this
-  | .chain t [], hwf => absurd rfl hwf.1
-  | .chain t (u :: us), hwf => by
-    obtain ⟨_, hpt, hwt, hwm, hok⟩ := hwf
-    simp only [chainOk, Bool.not_eq_true'] at hok
-    have ht := printLoop_term t hwt
-    have htail := printLoop_tail (isIdent t) (u :: us) hwm
-    simp only [termDoc, multiChainDoc, hok, Bool.false_and, Bool.false_eq_true, if_false, List.map_cons]
-    refine (printsAs_groupChain ?_)
-    intro w col i m st
-    simp only [mkFrames, List.cons_append]
-    obtain ⟨ps', ps, col1, hq, hr, hl⟩ := ht w col i m
-      (mkFrames i m (chainParts (isIdent t) (isIdent u :: us.map isIdent) (termDocs (u :: us))) ++ st)
-    obtain ⟨rs', rs, col2, hq2, hr2, hrs⟩ := htail w col1 i m st
-    simp only [List.map_cons] at hq2
-    rw [hq, hq2]
-    exact ⟨ps' ++ rs', ps ++ rs, col2, by simp, by simp [renderPieces_append, hr, hr2], .chain hpt hl hrs⟩
-/-- the further terms of a chain; `prev` = the term before them is a call-ender -/
-theorem printLoop_tail : (prev : Bool) → (more : List T) → T.WFTerms more → TailPrintsAs prev more
-  | prev, [], _ => tailPrintsAs_nil prev
-  | _, u :: us, hwf =>
-    tailPrintsAs_cons hwf.1.1 (printLoop_term u hwf.1.2) (printLoop_tail (isIdent u) us hwf.2)
-theorem printLoop_field : (f : F) → F.WF f → PrintsAs (fieldDocOf f) (LayF f)
-  | .mk none t, hwf => by
-    have := printsAs_fieldDoc (printsAs_chainDocOf (printLoop_term t hwf.2))
-    simpa [fieldDocOf] using this.mono (fun ps h => LayF.unnamed h)
-  | .mk (some l) t, hwf => by
-    have := printsAs_fieldDoc (printsAs_labelled hwf.1 (printsAs_chainDocOf (printLoop_term t hwf.2)))
-    simpa [fieldDocOf] using this
-theorem printLoop_items : (fs : List F) → fs ≠ [] → F.WFList fs → ItemsPrintAs fs
-  | [], hne, _ => absurd rfl hne
-  | [f], _, hwf => itemsPrintAs_one (printLoop_field f hwf.1)
-  | f :: g :: fs, _, hwf =>
-    itemsPrintAs_cons (printLoop_field f hwf.1) (printLoop_items (g :: fs) (by simp) hwf.2)
-end
-
 /-! ### 3. Layouts are tidy and NUL-free -/
 
 theorem upper_ne {c : Char} (h : isUpper c = true) (d : Char) (hd : d.toNat < 65 ∨ 90 < d.toNat) : c ≠ d := by
@@ -712,6 +594,460 @@ theorem post_passes_layP {t : T} {ps : List Piece} (h : LayP t ps) :
   have ht := layP_tidy h false [] rfl
   rw [List.append_nil] at ht
   exact post_passes ht (layP_nulFree h)
+
+/-! ### 3b. The flat layout, and what `pretty::flatten` returns -/
+
+mutual
+/-- the flat layout of a term or chain: everything on one line -/
+def flatPs : T → List Piece
+  | .leaf n => [.atom n]
+  | .int i => [.atom (intText i)]
+  | .bin bs => [.atom (binText bs)]
+  | .str v => [.atom (strText v)]
+  | .tup name fs =>
+    if fs.isEmpty then [.atom (emptyText name)] else .atom (openText name) :: (flatItems fs ++ [.atom [']']])
+  | .chain t more => flatPs t ++ flatTail more
+def flatTail : List T → List Piece
+  | [] => []
+  | u :: us => .sp :: (flatPs u ++ flatTail us)
+def flatField : F → List Piece
+  | .mk none t => flatPs t
+  | .mk (some l) t => .atom (l ++ [':']) :: .sp :: flatPs t
+def flatItems : List F → List Piece
+  | [] => []
+  | f :: fs => if fs.isEmpty then flatField f else flatField f ++ .atom [','] :: .sp :: flatItems fs
+end
+
+mutual
+theorem flatPs_lay : (t : T) → T.WF t → LayP t (flatPs t)
+  | .leaf n, hwf => by simpa [flatPs] using LayP.leaf hwf
+  | .int i, _ => by simpa [flatPs] using LayP.lit (.int i)
+  | .bin bs, hwf => by simpa [flatPs] using LayP.lit (.bin hwf)
+  | .str v, _ => by simpa [flatPs] using LayP.lit (.str v)
+  | .tup name [], hwf => by simpa [flatPs] using LayP.empty hwf.1
+  | .tup name (f :: fs), hwf => by
+    have := flatItems_lay (f :: fs) (by simp) hwf.2
+    simpa [flatPs] using LayP.flat hwf.1 this
+  | .chain t [], hwf => absurd rfl hwf.1
+  | .chain t (u :: us), hwf => by
+    simpa [flatPs] using LayP.chain hwf.2.1 (flatPs_lay t hwf.2.2.1) (flatTail_lay (u :: us) hwf.2.2.2)
+theorem flatTail_lay : (us : List T) → T.WFTerms us → TailP us (flatTail us)
+  | [], _ => by simpa [flatTail] using TailP.nil
+  | u :: us, hwf => by
+    simpa [flatTail] using TailP.cons hwf.1.1 (flatPs_lay u hwf.1.2) (flatTail_lay us hwf.2)
+theorem flatField_lay : (f : F) → F.WF f → LayF f (flatField f)
+  | .mk none t, hwf => by simpa [flatField] using LayF.unnamed (flatPs_lay t hwf.2)
+  | .mk (some l) t, hwf => by simpa [flatField] using LayF.named hwf.1 (flatPs_lay t hwf.2)
+theorem flatItems_lay : (fs : List F) → fs ≠ [] → F.WFList fs → ItemsP false fs (flatItems fs)
+  | [], hne, _ => absurd rfl hne
+  | [f], _, hwf => by simpa [flatItems] using ItemsP.one (b := false) (flatField_lay f hwf.1)
+  | f :: g :: fs, _, hwf => by
+    have := ItemsP.consFlat (flatField_lay f hwf.1) (flatItems_lay (g :: fs) (by simp) hwf.2)
+    simpa [flatItems] using this
+end
+
+/-! `flattenLoop`, one equation per kind of document -/
+
+theorem fl_nil (st : List Doc) : flattenLoop (.nil :: st) = flattenLoop st := by rw [flattenLoop]
+theorem fl_softline (st : List Doc) : flattenLoop (.softline :: st) = flattenLoop st := by rw [flattenLoop]
+theorem fl_bp (st : List Doc) : flattenLoop (.breakParent :: st) = flattenLoop st := by rw [flattenLoop]
+theorem fl_text (s : List Char) (st : List Doc) : flattenLoop (.text s :: st) = s ++ flattenLoop st := by
+  rw [flattenLoop]
+theorem fl_line (st : List Doc) : flattenLoop (.line :: st) = ' ' :: flattenLoop st := by rw [flattenLoop]
+theorem fl_concat (ds st : List Doc) : flattenLoop (.concat ds :: st) = flattenLoop (ds ++ st) := by
+  rw [flattenLoop]
+theorem fl_nest (n : Nat) (d : Doc) (st : List Doc) : flattenLoop (.nest n d :: st) = flattenLoop (d :: st) := by
+  rw [flattenLoop]
+theorem fl_group (d : Doc) (sb : Bool) (st : List Doc) :
+    flattenLoop (.group d sb :: st) = flattenLoop (d :: st) := by rw [flattenLoop]
+theorem fl_ifBreak (b f : Doc) (st : List Doc) : flattenLoop (.ifBreak b f :: st) = flattenLoop (f :: st) := by
+  rw [flattenLoop]
+
+/-- `flatten` walks its stack document by document -/
+theorem flattenLoop_append (a b : List Doc) : flattenLoop (a ++ b) = flattenLoop a ++ flattenLoop b := by
+  refine flattenLoop.induct (motive := fun a => flattenLoop (a ++ b) = flattenLoop a ++ flattenLoop b)
+    ?_ ?_ ?_ ?_ ?_ ?_ ?_ ?_ ?_ ?_ ?_ ?_ a
+  · simp [flattenLoop]
+  · intro ds ih; rw [List.cons_append, fl_nil, fl_nil, ih]
+  · intro ds ih; rw [List.cons_append, fl_softline, fl_softline, ih]
+  · intro ds ih; rw [List.cons_append, fl_bp, fl_bp, ih]
+  · intro ds s ih; rw [List.cons_append, fl_text, fl_text, ih, List.append_assoc]
+  · intro ds ih; rw [List.cons_append, fl_line, fl_line, ih]; rfl
+  · intro ds ih
+    rw [List.cons_append, flattenLoop, ih]
+    conv => rhs; rw [flattenLoop]
+    rfl
+  · intro ds ds1 ih
+    rw [List.cons_append, fl_concat, fl_concat, ← List.append_assoc, ih]
+  · intro ds n inner ih; rw [List.cons_append, fl_nest, fl_nest, ← List.cons_append, ih]
+  · intro ds inner sb ih; rw [List.cons_append, fl_group, fl_group, ← List.cons_append, ih]
+  · intro ds inner ih
+    rw [List.cons_append, flattenLoop, ← List.cons_append, ih]
+    conv => rhs; rw [flattenLoop]
+  · intro ds b' fl ih; rw [List.cons_append, fl_ifBreak, fl_ifBreak, ← List.cons_append, ih]
+
+theorem fl_cons (d : Doc) (ds : List Doc) : flattenLoop (d :: ds) = flattenLoop [d] ++ flattenLoop ds := by
+  rw [show d :: ds = [d] ++ ds from rfl, flattenLoop_append]
+
+theorem fl1_nil : flattenLoop [.nil] = [] := by rw [fl_nil]; simp [flattenLoop]
+theorem fl1_softline : flattenLoop [.softline] = [] := by rw [fl_softline]; simp [flattenLoop]
+theorem fl1_bp : flattenLoop [.breakParent] = [] := by rw [fl_bp]; simp [flattenLoop]
+theorem fl1_text (s : List Char) : flattenLoop [.text s] = s := by rw [fl_text]; simp [flattenLoop]
+theorem fl1_line : flattenLoop [.line] = [' '] := by rw [fl_line]; simp [flattenLoop]
+theorem fl1_concat (ds : List Doc) : flattenLoop [.concat ds] = flattenLoop ds := by rw [fl_concat]; simp
+theorem fl1_nest (n : Nat) (d : Doc) : flattenLoop [.nest n d] = flattenLoop [d] := by rw [fl_nest]
+theorem fl1_group (d : Doc) (sb : Bool) : flattenLoop [.group d sb] = flattenLoop [d] := by rw [fl_group]
+theorem fl1_ifBreak (b f : Doc) : flattenLoop [.ifBreak b f] = flattenLoop [f] := by rw [fl_ifBreak]
+theorem fl0 : flattenLoop [] = [] := by simp [flattenLoop]
+
+/-- `chain_doc`'s wrapping flattens to what the parts flatten to -/
+theorem fl1_groupChain (ds : List Doc) :
+    flattenLoop [.concat [.nil, Doc.mkGroup (breakIfWiderThan (.concat ds) chainSoftWidth)]] = flattenLoop ds := by
+  rw [fl1_concat, fl_cons, fl1_nil, List.nil_append]
+  simp only [Doc.mkGroup, fl1_group]
+  unfold breakIfWiderThan
+  split
+  · rw [fl1_concat]
+  · rw [fl1_concat, fl_cons, fl1_concat, fl1_bp, List.append_nil]
+
+theorem termDocs_eq_map (l : List T) : termDocs l = l.map termDoc := by
+  induction l with
+  | nil => rfl
+  | cons t l ih => simp [termDocs, ih]
+
+/-- the further terms of a chain whose last term has the layout `pl`, the others flat -/
+def tailWith : List T → List Piece → List Piece
+  | [], _ => []
+  | u :: us, pl => if us.isEmpty then .sp :: pl else .sp :: (flatPs u ++ tailWith us pl)
+
+theorem tailWith_cons_cons (u v : T) (vs : List T) (pl : List Piece) :
+    tailWith (u :: v :: vs) pl = .sp :: (flatPs u ++ tailWith (v :: vs) pl) := by
+  rw [tailWith]; simp
+
+theorem tailWith_single (u : T) (pl : List Piece) : tailWith [u] pl = .sp :: pl := by
+  rw [tailWith]; simp
+
+theorem wfTerms_mem : ∀ (l : List T), T.WFTerms l → ∀ h ∈ l, isPrim h = true ∧ T.WF h
+  | [], _, _, hh => by simp at hh
+  | t :: l, hwf, h, hh => by
+    simp only [List.mem_cons] at hh
+    rcases hh with rfl | hh
+    · exact hwf.1
+    · exact wfTerms_mem l hwf.2 h hh
+
+theorem getLastD_termDocs (t : T) : ∀ (l : List T) (hne : l ≠ []),
+    (termDoc t :: termDocs l).getLastD (termDoc t) = termDoc (l.getLast hne)
+  | [], hne => absurd rfl hne
+  | [u], _ => by simp [termDocs, List.getLastD]
+  | u :: v :: vs, _ => by
+    have := getLastD_termDocs u (v :: vs) (by simp)
+    simp only [termDocs, List.getLast_cons_cons] at this ⊢
+    simpa [List.getLastD] using this
+
+theorem tailWith_lay : ∀ (us : List T) (hne : us ≠ []) (pl : List Piece), T.WFTerms us →
+    LayP (us.getLast hne) pl → TailP us (tailWith us pl)
+  | [], hne, _, _, _ => absurd rfl hne
+  | [u], _, pl, hwf, hl => by
+    have := TailP.cons hwf.1.1 (by simpa using hl) TailP.nil
+    simpa [tailWith_single] using this
+  | u :: v :: vs, _, pl, hwf, hl => by
+    have ih := tailWith_lay (v :: vs) (by simp) pl hwf.2 (by simpa using hl)
+    have := TailP.cons hwf.1.1 (flatPs_lay u hwf.1.2) ih
+    rw [tailWith_cons_cons]; exact this
+
+theorem tailWith_flat : ∀ (us : List T) (hne : us ≠ []), tailWith us (flatPs (us.getLast hne)) = flatTail us
+  | [], hne => absurd rfl hne
+  | [u], _ => by simp [tailWith_single, flatTail]
+  | u :: v :: vs, _ => by
+    have := tailWith_flat (v :: vs) (by simp)
+    rw [tailWith_cons_cons, List.getLast_cons_cons, this]
+    rfl
+
+/-- the flattened head of `chain_doc` and the last term, as text -/
+theorem headFlat_render : ∀ (t : T) (more : List T) (hne : more ≠ []) (pl : List Piece),
+    (∀ h ∈ t :: more, flatten (termDoc h) = renderPieces (flatPs h)) →
+    joinSp (((t :: more).map termDoc).dropLast.map flatten) ++ ' ' :: renderPieces pl =
+      renderPieces (flatPs t ++ tailWith more pl)
+  | t, [], hne, _, _ => absurd rfl hne
+  | t, [u], _, pl, hf => by
+    simp [List.dropLast, joinSp, hf t (by simp), tailWith_single, renderPieces_append, renderPieces, Piece.render]
+  | t, u :: v :: vs, _, pl, hf => by
+    have ih := headFlat_render u (v :: vs) (by simp) pl (fun h hh => hf h (by simp [hh]))
+    have hd : ((t :: u :: v :: vs).map termDoc).dropLast =
+        termDoc t :: ((u :: v :: vs).map termDoc).dropLast := by simp [List.dropLast]
+    rw [hd, List.map_cons]
+    have hne' : (((u :: v :: vs).map termDoc).dropLast.map flatten) ≠ [] := by simp [List.dropLast]
+    have hj : ∀ (a : Str) (l : List Str), l ≠ [] → joinSp (a :: l) = a ++ ' ' :: joinSp l := by
+      intro a l hl; cases l with | nil => exact absurd rfl hl | cons b l => rfl
+    rw [hj _ _ hne', List.append_assoc, List.cons_append, ih, hf t (by simp), tailWith_cons_cons]
+    simp [renderPieces_append, renderPieces, Piece.render]
+
+mutual
+/-- `pretty::flatten` walks `term_doc` to the text of the flat layout -/
+theorem flat1_term : (t : T) → T.WF t → flattenLoop [termDoc t] = renderPieces (flatPs t)
+  | .leaf n, _ => by simp [termDoc, flatPs, fl1_text, renderPieces, Piece.render]
+  | .int i, _ => by simp [termDoc, flatPs, fl1_text, renderPieces, Piece.render]
+  | .bin bs, _ => by simp [termDoc, flatPs, fl1_text, renderPieces, Piece.render]
+  | .str v, _ => by simp [termDoc, flatPs, fl1_text, renderPieces, Piece.render]
+  | .tup name [], _ => by simp [termDoc, flatPs, fl1_text, renderPieces, Piece.render]
+  | .tup name (f :: fs), hwf => by
+    have hi := flat1_items (f :: fs) (by simp) hwf.2
+    simp only [termDoc, List.isEmpty_cons, Bool.false_eq_true, if_false, bracketed, Doc.mkGroup, fl1_group,
+      fl1_concat, flatPs]
+    rw [fl_cons, fl1_text, fl_cons, fl1_nest, fl1_concat, fl_cons, fl1_softline, fl_cons, Doc.join, fl1_concat,
+      show Doc.concat [Doc.text [','], Doc.line] = sepDoc from rfl, hi, fl_cons, fl1_ifBreak, fl1_nil, fl0,
+      fl_cons, fl1_softline, fl_cons, fl1_text, fl0]
+    simp [renderPieces_append, renderPieces, Piece.render]
+  | .chain t [], hwf => absurd rfl hwf.1
+  | .chain t (u :: us), hwf => by
+    obtain ⟨_, hpt, hwt, hwm⟩ := hwf
+    have ht := flat1_term t hwt
+    have hparts := flat1_parts (isIdent t) (u :: us) hwm
+    simp only [termDoc, multiChainDoc, List.map_cons]
+    split
+    · -- the flattened-head path
+      have hflat : ∀ h ∈ t :: u :: us, flatten (termDoc h) = renderPieces (flatPs h) := by
+        intro h hh
+        have hwh : T.WF h := by
+          simp only [List.mem_cons] at hh
+          rcases hh with rfl | hh
+          · exact hwt
+          · exact (wfTerms_mem (u :: us) hwm h (by simpa using hh)).2
+        have := flat1_all (t :: u :: us) ⟨⟨hpt, hwt⟩, hwm⟩ h hh
+        unfold flatten
+        rw [this]
+        exact strip_layP (flatPs_lay h hwh)
+      have hlast := getLastD_termDocs t (u :: us) (by simp)
+      have hlw := flat1_all (u :: us) hwm ((u :: us).getLast (by simp)) (List.getLast_mem _)
+      rw [fl1_concat, fl_cons, fl1_nil, List.nil_append, fl_cons, fl1_text, fl_cons, fl1_text, fl_cons, hlast, hlw,
+        fl0, List.append_nil]
+      have h2 := headFlat_render t (u :: us) (by simp) (flatPs ((u :: us).getLast (by simp))) hflat
+      rw [tailWith_flat (u :: us) (by simp)] at h2
+      rw [termDocs_eq_map]
+      simp only [List.cons_append, List.nil_append, flatPs]
+      exact h2
+    · simp only [List.map_cons] at hparts
+      rw [fl1_groupChain, fl_cons, ht, hparts]
+      simp [flatPs, renderPieces_append]
+/-- the parts of `chain_terms_doc` flatten to the further terms behind one space each -/
+theorem flat1_parts : (prev : Bool) → (more : List T) → T.WFTerms more →
+    flattenLoop (chainParts prev (more.map isIdent) (termDocs more)) = renderPieces (flatTail more)
+  | _, [], _ => by simp [chainParts, termDocs, flatTail, fl0, renderPieces]
+  | prev, u :: us, hwf => by
+    have hu := flat1_term u hwf.1.2
+    have ih := flat1_parts (isIdent u) us hwf.2
+    simp only [List.map_cons, termDocs, chainParts, flatTail]
+    cases prev with
+    | false =>
+      simp only [Bool.false_eq_true, if_false, List.cons_append, List.nil_append]
+      rw [fl_cons, fl1_text, fl_cons, hu, ih]
+      simp [renderPieces_append, renderPieces, Piece.render]
+    | true =>
+      simp only [if_true, List.cons_append, List.nil_append]
+      rw [fl_cons, fl1_line, fl_cons, fl1_ifBreak, fl1_nil, fl_cons, hu, ih]
+      simp [renderPieces_append, renderPieces, Piece.render]
+/-- every term of a list flattens to its flat layout -/
+theorem flat1_all : (l : List T) → T.WFTerms l → ∀ h ∈ l, flattenLoop [termDoc h] = renderPieces (flatPs h)
+  | [], _, _, hh => by simp at hh
+  | t :: l, hwf, h, hh => by
+    simp only [List.mem_cons] at hh
+    rcases hh with rfl | hh
+    · exact flat1_term _ hwf.1.2
+    · exact flat1_all l hwf.2 h hh
+theorem flat1_field : (f : F) → F.WF f → flattenLoop [fieldDocOf f] = renderPieces (flatField f)
+  | .mk none t, hwf => by
+    have ht := flat1_term t hwf.2
+    simp only [fieldDocOf, fieldDoc, flatField, fl1_concat]
+    rw [fl_cons, fl1_nil, List.nil_append, fl_cons, fl_cons (Doc.nil), fl1_nil, fl0, List.append_nil,
+      List.append_nil]
+    split
+    · rw [chainDoc, fl1_groupChain, ht]
+    · exact ht
+  | .mk (some l) t, hwf => by
+    have ht := flat1_term t hwf.2
+    simp only [fieldDocOf, fieldDoc, flatField, fl1_concat]
+    rw [fl_cons, fl1_nil, List.nil_append, fl_cons, fl_cons (Doc.nil), fl1_nil, fl0, List.append_nil,
+      List.append_nil, fl1_concat, fl_cons, fl1_text]
+    have hv : flattenLoop [if isPrim t = true then chainDoc (termDoc t) else termDoc t] =
+        renderPieces (flatPs t) := by
+      split
+      · rw [chainDoc, fl1_groupChain, ht]
+      · exact ht
+    rw [hv]
+    simp [renderPieces, Piece.render]
+theorem flat1_items : (fs : List F) → fs ≠ [] → F.WFList fs →
+    flattenLoop (Doc.joinList sepDoc (fieldDocs fs)) = renderPieces (flatItems fs)
+  | [], hne, _ => absurd rfl hne
+  | [f], _, hwf => by
+    simp only [fieldDocs, Doc.joinList, flatItems, List.isEmpty_nil, if_true]
+    exact flat1_field f hwf.1
+  | f :: g :: fs, _, hwf => by
+    have hf := flat1_field f hwf.1
+    have ih := flat1_items (g :: fs) (by simp) hwf.2
+    have hj : Doc.joinList sepDoc (fieldDocs (f :: g :: fs)) =
+        fieldDocOf f :: sepDoc :: Doc.joinList sepDoc (fieldDocs (g :: fs)) := by
+      simp [fieldDocs, Doc.joinList]
+    rw [hj, fl_cons, hf, fl_cons, ih, sepDoc, fl1_concat, fl_cons, fl1_text, fl1_line]
+    simp [flatItems, renderPieces_append, renderPieces, Piece.render]
+end
+
+/-- `pretty::flatten(term_doc(t))` is the text of the flat layout of `t` -/
+theorem flatten_termDoc (t : T) (hwf : T.WF t) : flatten (termDoc t) = renderPieces (flatPs t) := by
+  unfold flatten
+  rw [flat1_term t hwf]
+  exact strip_layP (flatPs_lay t hwf)
+
+/-! ### 3c. The engine prints a layout: terms, chains, fields -/
+
+/-- `chain_doc` of a field value or step -/
+theorem printsAs_chainDocOf {t : T} (h : PrintsAs (termDoc t) (LayP t)) :
+    PrintsAs (if isPrim t = true then chainDoc (termDoc t) else termDoc t) (LayP t) := by
+  split
+  · exact printsAs_chainDoc h
+  · exact h
+
+/-- what the tail lemma says: the parts of `chain_terms_doc` after the first term print the further
+    terms, each behind one space -/
+def TailPrintsAs (prev : Bool) (more : List T) : Prop :=
+  FramesPrintAs (chainParts prev (more.map isIdent) (termDocs more)) (TailP more)
+
+theorem tailPrintsAs_nil (prev : Bool) : TailPrintsAs prev [] := by
+  intro w col i m st
+  exact ⟨[], [], col, by simp [chainParts, termDocs, mkFrames], rfl, .nil⟩
+
+theorem tailPrintsAs_cons {prev : Bool} {u : T} {us : List T} (hp : isPrim u = true)
+    (hu : PrintsAs (termDoc u) (LayP u)) (ht : TailPrintsAs (isIdent u) us) :
+    TailPrintsAs prev (u :: us) := by
+  intro w col i m st
+  cases prev with
+  | false =>
+    simp only [List.map_cons, termDocs, chainParts, Bool.false_eq_true, if_false, List.cons_append,
+      List.nil_append, mkFrames, pl_text]
+    obtain ⟨ps', ps, col1, hq, hr, hl⟩ := hu w (col + [' '].length) i m
+      (mkFrames i m (chainParts (isIdent u) (us.map isIdent) (termDocs us)) ++ st)
+    obtain ⟨rs', rs, col2, hq2, hr2, hrest⟩ := ht w col1 i m st
+    rw [hq, hq2]
+    exact ⟨.atom [' '] :: (ps' ++ rs'), .sp :: (ps ++ rs), col2, by simp,
+      by simp [renderPieces_append, renderPieces, Piece.render, hr, hr2], .cons hp hl hrest⟩
+  | true =>
+    simp only [List.map_cons, termDocs, chainParts, if_true, List.cons_append, List.nil_append, mkFrames]
+    cases m with
+    | flat =>
+      rw [pl_line_flat, pl_ifBreak_flat, pl_nil]
+      obtain ⟨ps', ps, col1, hq, hr, hl⟩ := hu w (col + 1) i .flat
+        (mkFrames i .flat (chainParts (isIdent u) (us.map isIdent) (termDocs us)) ++ st)
+      obtain ⟨rs', rs, col2, hq2, hr2, hrest⟩ := ht w col1 i .flat st
+      rw [hq, hq2]
+      exact ⟨.sp :: (ps' ++ rs'), .sp :: (ps ++ rs), col2, by simp,
+        by simp [renderPieces_append, renderPieces, hr, hr2], .cons hp hl hrest⟩
+    | brk =>
+      rw [pl_line_brk, pl_ifBreak_brk, pl_text]
+      obtain ⟨ps', ps, col1, hq, hr, hl⟩ := hu w (i + ['~', '>', ' '].length) i .brk
+        (mkFrames i .brk (chainParts (isIdent u) (us.map isIdent) (termDocs us)) ++ st)
+      obtain ⟨rs', rs, col2, hq2, hr2, hrest⟩ := ht w col1 i .brk st
+      rw [hq, hq2]
+      exact ⟨.nl i :: .atom ['~', '>', ' '] :: (ps' ++ rs'), .nl i :: .atom ['~', '>'] :: .sp :: (ps ++ rs), col2,
+        by simp, by simp [renderPieces_append, renderPieces, Piece.render, hr, hr2], .pipe i hp hl hrest⟩
+
+/-- the last term of a non-empty list, as `getLastD` with any default -/
+theorem getLastD_cons_cons (a b : T) (l : List T) (d : T) : (a :: b :: l).getLastD d = (b :: l).getLastD a := by
+  simp [List.getLastD]
+
+mutual
+/-- Whatever the width, the column, the indentation, the mode of the enclosing group and the rest of
+    the stack: the engine prints `termDoc t` as one of the layouts of `t`, then goes on with the rest. -/
+theorem printLoop_term : (t : T) → T.WF t → PrintsAs (termDoc t) (LayP t)
+  | .leaf n, hwf => by
+    intro w col i m st
+    simp only [termDoc, pl_text]
+    exact ⟨[.atom n], [.atom n], col + n.length, by simp, rfl, .leaf hwf⟩
+  | .int i, _ => by
+    intro w col i' m st
+    simp only [termDoc, pl_text]
+    exact ⟨[.atom (intText i)], [.atom (intText i)], col + (intText i).length, by simp, rfl, .lit (.int i)⟩
+  | .bin bs, hwf => by
+    intro w col i m st
+    simp only [termDoc, pl_text]
+    exact ⟨[.atom (binText bs)], [.atom (binText bs)], col + (binText bs).length, by simp, rfl, .lit (.bin hwf)⟩
+  | .str v, _ => by
+    intro w col i m st
+    simp only [termDoc, pl_text]
+    exact ⟨[.atom (strText v)], [.atom (strText v)], col + (strText v).length, by simp, rfl, .lit (.str v)⟩
+  | .tup name [], hwf => by
+    intro w col i m st
+    simp only [termDoc, List.isEmpty_nil, if_true, pl_text]
+    exact ⟨[.atom (emptyText name)], [.atom (emptyText name)], col + (emptyText name).length, by simp, rfl,
+      .empty hwf.1⟩
+  | .tup name (f :: fs), hwf => by
+    have h := printLoop_items (f :: fs) (by simp) hwf.2
+    have := printsAs_bracketed hwf.1 h
+    simpa [termDoc] using this
+  | .chain t [], hwf => absurd rfl hwf.1
+  | .chain t (u :: us), hwf => by
+    obtain ⟨_, hpt, hwt, hwm⟩ := hwf
+    have ht := printLoop_term t hwt
+    have htail := printLoop_tail (isIdent t) (u :: us) hwm
+    simp only [termDoc, multiChainDoc, List.map_cons]
+    split
+    · -- a chain ending in a container: the head flattened onto one line, then the container
+      have hlastmem := List.getLast_mem (l := u :: us) (by simp)
+      have hwl := wfTerms_mem (u :: us) hwm _ hlastmem
+      have hlp := printLoop_all (u :: us) hwm _ hlastmem
+      have hflat : ∀ h ∈ t :: u :: us, flatten (termDoc h) = renderPieces (flatPs h) := by
+        intro h hh
+        simp only [List.mem_cons] at hh
+        rcases hh with rfl | hh
+        · exact flatten_termDoc _ hwt
+        · exact flatten_termDoc _ (wfTerms_mem (u :: us) hwm h (by simpa using hh)).2
+      intro w col i m st
+      rw [pl_concat]
+      simp only [mkFrames, List.cons_append, List.nil_append, pl_nil, pl_text]
+      rw [getLastD_termDocs t (u :: us) (by simp)]
+      obtain ⟨ps', ps, col1, hq, hr, hl⟩ := hlp w
+        (col + (joinSp (List.map flatten (termDoc t :: termDocs (u :: us)).dropLast)).length + [' '].length) i m st
+      rw [hq]
+      have h2 := headFlat_render t (u :: us) (by simp) ps hflat
+      rw [← termDocs_eq_map] at h2
+      refine ⟨.atom (joinSp (List.map flatten (termDoc t :: termDocs (u :: us)).dropLast)) :: .atom [' '] :: ps',
+        flatPs t ++ tailWith (u :: us) ps, col1, by simp, ?_,
+        .chain hpt (flatPs_lay t hwt) (tailWith_lay (u :: us) (by simp) ps hwm hl)⟩
+      rw [← h2]
+      simp [renderPieces, Piece.render, hr, termDocs]
+    · refine (printsAs_groupChain ?_)
+      intro w col i m st
+      simp only [mkFrames, List.cons_append]
+      obtain ⟨ps', ps, col1, hq, hr, hl⟩ := ht w col i m
+        (mkFrames i m (chainParts (isIdent t) (isIdent u :: us.map isIdent) (termDocs (u :: us))) ++ st)
+      obtain ⟨rs', rs, col2, hq2, hr2, hrs⟩ := htail w col1 i m st
+      simp only [List.map_cons] at hq2
+      rw [hq, hq2]
+      exact ⟨ps' ++ rs', ps ++ rs, col2, by simp, by simp [renderPieces_append, hr, hr2], .chain hpt hl hrs⟩
+/-- every term of a list -/
+theorem printLoop_all : (l : List T) → T.WFTerms l → ∀ h ∈ l, PrintsAs (termDoc h) (LayP h)
+  | [], _, _, hh => by simp at hh
+  | t :: l, hwf, h, hh => by
+    simp only [List.mem_cons] at hh
+    rcases hh with rfl | hh
+    · exact printLoop_term _ hwf.1.2
+    · exact printLoop_all l hwf.2 h hh
+/-- the further terms of a chain; `prev` = the term before them is a call-ender -/
+theorem printLoop_tail : (prev : Bool) → (more : List T) → T.WFTerms more → TailPrintsAs prev more
+  | prev, [], _ => tailPrintsAs_nil prev
+  | _, u :: us, hwf =>
+    tailPrintsAs_cons hwf.1.1 (printLoop_term u hwf.1.2) (printLoop_tail (isIdent u) us hwf.2)
+theorem printLoop_field : (f : F) → F.WF f → PrintsAs (fieldDocOf f) (LayF f)
+  | .mk none t, hwf => by
+    have := printsAs_fieldDoc (printsAs_chainDocOf (printLoop_term t hwf.2))
+    simpa [fieldDocOf] using this.mono (fun ps h => LayF.unnamed h)
+  | .mk (some l) t, hwf => by
+    have := printsAs_fieldDoc (printsAs_labelled hwf.1 (printsAs_chainDocOf (printLoop_term t hwf.2)))
+    simpa [fieldDocOf] using this
+theorem printLoop_items : (fs : List F) → fs ≠ [] → F.WFList fs → ItemsPrintAs fs
+  | [], hne, _ => absurd rfl hne
+  | [f], _, hwf => itemsPrintAs_one (printLoop_field f hwf.1)
+  | f :: g :: fs, _, hwf =>
+    itemsPrintAs_cons (printLoop_field f hwf.1) (printLoop_items (g :: fs) (by simp) hwf.2)
+end
 
 /-! ### 4. The parser reads a layout back -/
 
